@@ -278,7 +278,7 @@ fn emit_expression_ctx(
                             out.push(json!("out"));
                             out.push(json!("/ev"));
                         }
-                        DynamicStringPart::Sequence(_) => {
+                        DynamicStringPart::Sequence(_) | DynamicStringPart::Conditional { .. } => {
                             // Sequences inside string literals not supported here; emit raw
                             out.push(json!(format!("^{value}")));
                         }
@@ -513,6 +513,22 @@ fn emit_dynamic_string_parts(
                 out.len() + scope.param_offset,
                 context,
             )?);
+            emit_dynamic_string_parts(&parts[1..], out, scope, context)
+        }
+        DynamicStringPart::Conditional {
+            condition,
+            when_true,
+            when_false,
+        } => {
+            let tokens = emit_conditional(
+                condition,
+                when_true,
+                when_false.as_deref(),
+                scope,
+                out.len() + scope.param_offset,
+                context,
+            )?;
+            out.extend(tokens);
             emit_dynamic_string_parts(&parts[1..], out, scope, context)
         }
     }
